@@ -17,7 +17,7 @@ RULE = ('Each case: random spike times (many exactly on chunk bounds) and cluste
         'first, at most the requested number). non-trivial = distinct cases with a spike on a bound and a '
         'stride that does not divide the chunk count, or with a count smaller than an eligible group.')
 EXHAUSTIVE = {'quick': False, 'thorough': False}
-FLOORS = {'quick': {'evaluations': 20000, 'distinct_nontrivial': 1000,
+FLOORS = {'quick': {'evaluations': 60000, 'distinct_nontrivial': 3000,
                     'monitors': {'M2._flatten_per_cluster.checked': 10000}},
           'thorough': {'evaluations': 1000000, 'distinct_nontrivial': 50000,
                        'monitors': {'M2._flatten_per_cluster.checked': 500000}}}
@@ -25,7 +25,7 @@ NSHARDS = 16
 
 
 def plan(tier, seed):
-    n = 5000 if tier == 'quick' else 300000
+    n = 15000 if tier == 'quick' else 300000
     return [{'shard': i, 'n': NSHARDS, 'seed': seed, 'cases': n // NSHARDS + 1} for i in range(NSHARDS)]
 
 
